@@ -11,13 +11,18 @@ spec/air/Divisor.tla + GenDivisor.tla   Z(x) = PROD_{s < L-e} (x - g^s) over the
                        AirContext + TransitionConstraints::new produce.
 spec/air/Periodic.tla  the interpolant of a cycle and its value p(x^(L/c)) at every trace step, on the
                        LDE coset and at extension points; replayed on Air::get_periodic_column_polys
-                       evaluated the way the verifier evaluates it."""
+                       evaluated the way the verifier evaluates it.
+spec/air/TransEval.tla the prover's side: the composition trace of an AIR with constraints
+                       per_k(x) T(x) + T(g x), one assertion and e exemptions, by definition
+                       SUM tc_k C_k(x)/Z_e(x) + cc (T(x) - v)/(x - g^s) on the constraint evaluation domain;
+                       replayed on DefaultConstraintEvaluator::evaluate (periodic value table, LDE frames,
+                       division by the transition divisor with e > 1), serial and concurrent builds."""
 import json, os, collections
 import vf, airalglib as al
 
 META = dict(
     technique="TLA+ integer model of degrees / blowups / exemption bounds / composition columns model-checked by TLC over every context in scope, TLA+ definitions of the transition divisor and of periodic-column polynomials over toy prime fields; TLC-computed complete expected values replayed on the real generic code (Generate->Replay, toy-field instantiation)",
-    text="TLC checks on 4 064 contexts (base 1..8, <= 2 cycles from {2..L}, L in 8..64, one or two constraints, main/aux) that the documented evaluation degree is the degree of the declared product, that the ce domain determines the composition polynomial for every accepted exemption count and that ceil((deg+1)/L) columns hold it; the same contexts (about 45 000 (context, e) tuples) are replayed on TransitionConstraintDegree::{new, with_cycles, get_evaluation_degree, min_blowup_factor} and AirContext::{new, new_multi_segment, set_num_transition_exemptions, num_constraint_composition_columns, ce_domain_size} for values and accept/panic classes. The transition divisor is compared with PROD_{s<L-e}(x - g^s) at every trace-domain point, every other element of F_97 (or a coset of the larger fields) and extension points for every e in 1..L/2+1, L in 8..64, four toy fields. Periodic column polynomials of every cycle 2..L are evaluated as the verifier does at every trace step, on the blowup-2 LDE coset and at extension points.",
+    text="TLC checks on 4 064 contexts (base 1..8, <= 2 cycles from {2..L}, L in 8..64, one or two constraints, main/aux) that the documented evaluation degree is the degree of the declared product, that the ce domain determines the composition polynomial for every accepted exemption count and that ceil((deg+1)/L) columns hold it; the same contexts (76 928 (context, e) tuples, 59 047 accepted) are replayed on TransitionConstraintDegree::{new, with_cycles, get_evaluation_degree, min_blowup_factor} and AirContext::{new, new_multi_segment, set_num_transition_exemptions, num_constraint_composition_columns, ce_domain_size} for values and accept/panic classes. The transition divisor is compared with PROD_{s<L-e}(x - g^s) at every trace-domain point, every other element of F_97 (or a coset of the larger fields) and extension points for every e in 1..L/2+1, L in 8..64, four toy fields. Periodic column polynomials of every cycle 2..L are evaluated as the verifier does at every trace step, on the blowup-2 LDE coset and at extension points. The prover's DefaultConstraintEvaluator (periodic value table, frames over the LDE, division by the transition divisor) is compared with the definition of the composition trace for e in {1,2,3,L/4,L/2+1} on the whole constraint evaluation domain, serial and concurrent builds.",
     note="Toy fields stand in for the production fields (the code is field-generic; field arithmetic is C10). The composition-column count is gated as 'enough to hold the polynomial' (more columns than required are counted, not flagged). min_blowup_factor is compared with max(2, next_power_of_two(base + #cycles - 1)), the meaning the AIR family of the framework relies on. At exempted trace-domain points the divisor's quotient representation is 0/0: either the polynomial value or 0-with-vanishing-denominator is accepted there; exactness of the zero set follows from agreement at more than L other points.",
     design="7/C23")
 
@@ -34,6 +39,10 @@ def sig_degrees(sc, det, label):
 
 def sig_divisor(sc, det, label):
     return "divisor:%s %s P=%s L=%s e=%s" % (det.get("call"), det.get("what"), sc["P"], sc["L"], det.get("e"))
+
+
+def sig_transeval(sc, det, label):
+    return "transeval:%s[%s] %s P=%s L=%s e=%s d=%s" % (det.get("call"), label, det.get("what"), sc["P"], sc["L"], sc["e"], sc["d"])
 
 
 def sig_periodic(sc, det, label):
@@ -73,6 +82,12 @@ def gen_all(ck, thorough):
                "periodic generator misses cycles: %d cases" % len(sc))
     ck.part("gen:periodic", cases=len(sc), columns=sum(len(s["values"]) for s in sc))
     out["periodic"] = sc
+    sc = al.generate(ck, "transeval", "MCTransEval.tla", "GenTransEval%s.cfg" % suf, al.AIRDIR, timeout=1200)
+    es = collections.Counter("e=1" if s["e"] == 1 else "e=L/2+1" if s["e"] == s["L"] // 2 + 1 else "1<e<=L/2" for s in sc)
+    ck.require(len(sc) >= 50 and es["e=1"] >= 10 and es["e=L/2+1"] >= 10 and es["1<e<=L/2"] >= 20 and {s["d"] for s in sc} == {1, 2, 3},
+               "transition-evaluation cases missing: %s" % dict(es))
+    ck.part("gen:transeval", cases=len(sc), exemptions=dict(es), values=sum(len(s["comp"]) for s in sc))
+    out["transeval"] = sc
     return out
 
 
@@ -90,6 +105,11 @@ def run(ck, tier):
     ck.require(s2["calls"] > 20000, "divisor replay made too few calls: %d" % s2["calls"])
     s3, _ = al.replay(ck, binary, "periodic", "periodic", sc["periodic"], sig=sig_periodic)
     ck.require(s3["calls"] > 10000, "periodic replay made too few calls: %d" % s3["calls"])
+    s4, _ = al.replay(ck, binary, "transeval", "transeval", sc["transeval"], sig=sig_transeval)
+    ck.require(s4["calls"] > 2000, "transition-evaluation replay compared too few values: %d" % s4["calls"])
+    conc = vf.build_harness("airalg", variant="concurrent")
+    s5, _ = al.replay(ck, conc, "transeval", "transeval", sc["transeval"], label="concurrent", threads=[1, 4], sig=sig_transeval)
+    ck.require(s5["concurrent"] is True and s5["runs"] == 2, "the concurrent binary did not run both pools")
     if thorough:
         dev = vf.build_harness("airalg", profile="dev")      # debug assertions and overflow checks on
         al.replay(ck, dev, "degrees", "degrees", sc["degrees"], label="serial-dev", sig=sig_degrees)
@@ -97,6 +117,7 @@ def run(ck, tier):
         al.replay(ck, dev, "periodic", "periodic", sc["periodic"], label="serial-dev", sig=sig_periodic)
     ck.bounds = {"degrees": "base 1..8 (10 thorough), <= 2 cycles from {2,4,..,L}, L in {8,16,32,64} (+128), e in 0..L/2+2, 1-2 constraints (main/aux), option blowups {ce, 2ce, ce/2}",
                  "divisor": "L in 8..64 (128 thorough) over F_97 (L<=32), F_193, F_257, F_40961; every e in 1..L/2+1; all trace-domain points + all other elements of F_97 / coset + quadratic and cubic extension points",
+                 "transeval": "L in {8,16,64} F_257, {32,128} F_40961, 16 F_193 (more thorough); e in {1,2,3,L/4,L/2+1}; two periodic columns; all 2L ce points for L <= 64, 16 sampled otherwise; base / quadratic / cubic coefficients; release builds",
                  "periodic": "cycles 2..L, L in 8..128 (512 thorough), seeded / constant / unit / ramp values, six-column mixtures; all trace steps, 2L coset points, 6 extension points"}
     ck.exhaustive = False
     ck.assumptions = ["toy field types implement FieldP.tla's arithmetic and get_root_of_unity returns RootOfUnity(P, k) (a wrong root shows up as a mismatch)",
@@ -110,5 +131,9 @@ def replay(ck, path):
     rp = obj["replay"]
     build = rp.get("build", "serial")
     binary = vf.build_harness("airalg", profile="dev" if build.endswith("-dev") else "release")
-    sig = {"degrees": sig_degrees, "divisor": sig_divisor, "periodic": sig_periodic}[rp["engine"]]
-    al.replay(ck, binary, rp["engine"], "replay", [rp["scenario"]], label=build, sig=sig)
+    sig = {"degrees": sig_degrees, "divisor": sig_divisor, "periodic": sig_periodic, "transeval": sig_transeval}[rp["engine"]]
+    if build.startswith("concurrent"):
+        binary = vf.build_harness("airalg", variant="concurrent")
+        al.replay(ck, binary, rp["engine"], "replay", [rp["scenario"]], label=build, threads=[rp.get("threads") or 4], sig=sig)
+    else:
+        al.replay(ck, binary, rp["engine"], "replay", [rp["scenario"]], label=build, sig=sig)
